@@ -311,6 +311,19 @@ def audit_programs():
                 "class A1 extends Zzz:\n    a: int\n", "class A1 extends P:\n    a: int\n", "class A1 extends E:\n    a: int\n", "class A1 extends K:\n    a: int\n\ndef h(a: A1) -> int:\n    return a.t() + a.z\n",
                 "class A1 extends K:\n    z: int\n", "class A1 extends K, K:\n    a: int\n", "class A1 extends A1 with Tr:\n    a: int\n"]:
         yield ("sem-audit", "R5-extends|" + src.split("\n")[0], HEADER + src)
+    # rho-shaped hierarchies (added after seed C11-4): a tail of 0..3 classes leading into an `extends` cycle of length 1..3, in
+    # declaration order and reversed; every walk along `extends` (checker, lowering) must end with a diagnostic, never hang
+    for tail in range(4):
+        for cyc in (1, 2, 3):
+            names = ["T%d" % i for i in range(tail)] + ["C%d" % i for i in range(cyc)]
+            decls = []
+            for i, n in enumerate(names):
+                parent = names[i + 1] if i + 1 < len(names) else "C0"
+                decls.append("class %s extends %s:\n    f%d: int\n" % (n, parent, i))
+            for order in ("decl", "rev"):
+                ds = decls if order == "decl" else decls[::-1]
+                use = "\ndef h(a: %s) -> int:\n    return a.f0\n" % names[0]
+                yield ("sem-audit", "R5-rho|tail=%d cycle=%d %s" % (tail, cyc, order), HEADER + "\n".join(ds) + use)
     # G12 checked newtypes (from_underlying) with odd signatures and argument counts
     for m in ["def from_underlying(v: int) -> Result[X, str]:\n        return Ok(X(v))", "def from_underlying() -> Result[X, str]:\n        return Ok(X(1))",
               "def from_underlying(v: int, w: int) -> Result[X, str]:\n        return Ok(X(v))", "def from_underlying(self) -> X:\n        return self", "def from_underlying(v: int) -> int:\n        return v"]:
